@@ -109,23 +109,27 @@ inductive StepR where
   | stop                -- `break` (zero power)
   | next (a : LoopAcc)
 
+/-- "apply the appropriate state change if necessary": Unbonded/Unbonding → Bonded; the third component is
+    the amount that has to move from the not-bonded to the bonded pool -/
+def bondIfNeeded (s : App) (v : Val) : App × Val × Int :=
+  if v.status = .bonded then (s, v, 0)
+  else
+    let r := s.bondValidator v
+    (r.1, r.2, (r.2.tokens : Int))
+
 /-- body of the first loop for a validator record -/
 def visitVal (acc : LoopAcc) (v : Val) : StepR :=
   if v.jailed then .skip
   else if powerOf v.tokens = 0 then .stop
   else
-    let (s, v, nb) :=
-      match v.status with
-      | .bonded => (acc.app, v, (0 : Int))
-      | _ => let (s', v') := acc.app.bondValidator v; (s', v', (v'.tokens : Int))
-    let newPower : Int := (powerOf v.tokens : Nat)
+    let r := acc.app.bondIfNeeded v
+    let newPower : Int := (powerOf r.2.1.tokens : Nat)
     let changed := alookup v.op acc.last != some newPower
-    let s := if changed then s.setLast v.op newPower else s
-    .next { app := s
+    .next { app := if changed then r.1.setLast v.op newPower else r.1
             last := aerase v.op acc.last
-            updates := if changed then acc.updates ++ [(v.key, newPower)] else acc.updates
+            updates := if changed then acc.updates ++ [(r.2.1.key, newPower)] else acc.updates
             total := acc.total + newPower
-            nb2b := acc.nb2b + nb
+            nb2b := acc.nb2b + r.2.2
             count := acc.count + 1 }
 
 /-- `mustGetValidator` then the loop body -/
